@@ -72,6 +72,36 @@ func c06(c *Ctx) {
 				}
 			}
 		}
+		switch c.Rng.Intn(12) {
+		case 0:
+			// a long chain of look-alike shift states (longer than the number of symbols): partition
+			// refinement needs as many rounds as the chain is long
+			k := g.NT + g.NN + 2 + c.Rng.Intn(12)
+			rhs := make([]int, 0, k+1)
+			for j := 0; j < k; j++ {
+				rhs = append(rhs, 1)
+			}
+			if g.NT > 2 {
+				rhs = append(rhs, 2)
+			}
+			g.Rules = append(g.Rules, GRule{LHS: g.Inputs[0].Sym, RHS: rhs})
+			c.Count("with a long chain rule")
+		case 1:
+			// two left-recursive lists; one is an eoi input AND a no-eoi input, the other a no-eoi input:
+			// final states of no-eoi inputs that are passed through by another input
+			if g.NT > 2 {
+				la, lb := g.NT+g.NN, g.NT+g.NN+1
+				g.NN += 2
+				g.Rules = append(g.Rules,
+					GRule{LHS: la, RHS: []int{la, 1}}, GRule{LHS: la, RHS: []int{1}},
+					GRule{LHS: lb, RHS: []int{lb, 2}}, GRule{LHS: lb, RHS: []int{2}})
+				if c.Rng.Intn(2) == 0 {
+					g.Rules = append(g.Rules, GRule{LHS: lb, RHS: []int{lb, 1}})
+				}
+				g.Inputs = append(g.Inputs, GInput{Sym: la, Eoi: true}, GInput{Sym: la, Eoi: false}, GInput{Sym: lb, Eoi: false})
+				c.Count("with left-recursive list inputs (eoi + no-eoi)")
+			}
+		}
 		// the same nonterminal as two inputs (a user %input that is also a lookahead target, or
 		// simply listed twice): their entry states are equivalent and must not be merged away
 		if c.Rng.Intn(6) == 0 {
